@@ -18,7 +18,7 @@ CHECKS = {
         "the remainder table and the remainder->check-digit mapping are computed from the source by the abstract evaluator and compared with an independently typed reference table; "
         "every value that can reach the comparison with an account digit is shown to be one decimal digit. Bank entry -> method is decided by evaluation: BBAN.validate_national_checksum evaluated with a registry entry "
         "naming each registered method must consult exactly the class registered for it, and must accept without consulting anything for unlisted banks and unimplemented methods. Every method's full verdict (special rules included) is "
-        "compared with a reference verdict function on a probe family covering every position x digit and the boundaries of the special rules (quick: ~300 accounts per method, thorough: ~1500); method 91 is checked on accounts only one variant accepts. "
+        "compared with a reference verdict function on a probe family covering every position x digit and the boundaries of the special rules (quick: ~450 accounts per method; thorough: every pair of positions x all digit values, ~12 000 accounts per method); method 91 is checked on accounts only one variant accepts. "
         "This covers the 21 methods without any test.",
    note="Trusted: sv/tables/bundesbank.py (typed from the Bundesbank descriptions), the abstract evaluator's library model. sv/tables/bundesbank_ref.py: the special rules of 08, 16, 23, 24, 25, 26, 61, 63, 68, 76, 88, 91, 99 are pinned to the reviewed behaviour after the repairs of DESIGN 8.3 (a later change is reported); outside the probe family their agreement is inferred.",
    design="3/C07"),
@@ -30,7 +30,7 @@ CHECKS = {
         "the reference says so; the generation-side reader (compute_national_checksum) is evaluated per country and must reach the registered algorithm; the flag's effect (national validation can only reject; without the flag nothing national is consulted) "
         "is decided in the validator model. "
         "Parameters (weights, moduli, letter maps, special results) are thereby pinned for all 22 countries, 17 of which have no test.",
-   note="Trusted: sv/tables/national.py; the probe family is finite - a special case keyed on several positions at once is not decided (stated in evidence). R06-mono/R06-flag live in the validator analysis.",
+   note="Trusted: sv/tables/national.py; the probe family is finite - quick: single positions, thorough: every pair of positions jointly; a special case keyed on three or more positions at once is not decided (stated in evidence). R06-mono/R06-flag live in the validator analysis.",
    design="3/C06"),
  "C04": dict(
    technique="symbolic path enumeration of the validators + regular-language inclusion (DFA over a code-point partition) against the ISO 9362 language",
